@@ -2,6 +2,11 @@ pub mod common;
 pub mod config;
 pub mod workers;
 
+#[cfg(feature = "verif")]
+pub mod verif {
+    pub use crate::workers::swarm::verif::*;
+}
+
 use std::sync::Arc;
 use std::thread::{sleep, Builder, JoinHandle};
 use std::time::Duration;
